@@ -261,6 +261,7 @@ func (u *Unit) instantiateLemmas(asserts []string) []string {
 						return
 					}
 					seenFact[f] = true
+					factLabels.Store(f, l.Label)
 					facts = append(facts, f)
 					added = true
 					if xs, err := parseSx(f); err == nil {
@@ -271,30 +272,15 @@ func (u *Unit) instantiateLemmas(asserts []string) []string {
 					return
 				}
 				pat := l.Pats[i]
-				sig, ok := u.p.prelude.sigs[pat.Fn]
-				if !ok {
+				if _, ok := u.p.prelude.sigs[pat.Fn]; !ok {
 					return
 				}
 				for _, app := range byHead[pat.Fn] {
-					if len(app.list)-1 != len(pat.Params) {
-						continue
-					}
 					n2 := map[string]Term{}
 					for k, v := range names {
 						n2[k] = v
 					}
-					okm := true
-					for j, pn := range pat.Params {
-						if pn == "_" {
-							continue
-						}
-						t := Term{S: app.list[j+1].String(), Sort: sig.args[j]}
-						if prev, dup := n2[pn]; dup && prev.S != t.S {
-							okm = false
-							break
-						}
-						n2[pn] = t
-					}
+					okm := u.matchPat(&pat, app, n2)
 					if okm {
 						rec(i+1, n2)
 					}
@@ -307,6 +293,31 @@ func (u *Unit) instantiateLemmas(asserts []string) []string {
 		}
 	}
 	return facts
+}
+
+// matchPat matches an application term against a (possibly nested) pattern, binding pattern variables in names.
+func (u *Unit) matchPat(pat *LemmaPat, app *sx, names map[string]Term) bool {
+	sig, ok := u.p.prelude.sigs[pat.Fn]
+	if !ok || !app.isList || len(app.list)-1 != len(pat.Params) || app.list[0].isList || app.list[0].atom != pat.Fn {
+		return false
+	}
+	for j, pn := range pat.Params {
+		if j < len(pat.Sub) && pat.Sub[j] != nil {
+			if !u.matchPat(pat.Sub[j], app.list[j+1], names) {
+				return false
+			}
+			continue
+		}
+		if pn == "_" {
+			continue
+		}
+		t := Term{S: app.list[j+1].String(), Sort: sig.args[j]}
+		if prev, dup := names[pn]; dup && prev.S != t.S {
+			return false
+		}
+		names[pn] = t
+	}
+	return true
 }
 
 func sortStrings(a []string) {
@@ -339,6 +350,9 @@ func (u *Unit) header() string {
 
 var noLemmas = false
 
+// factLabels remembers which lemma an instance came from (written into the query as a comment; debugging aid)
+var factLabels sync.Map
+
 // queryNoLemmas: satisfiability of the bare path condition.
 func (o *Oblig) queryNoLemmas() string {
 	u := o.Unit
@@ -367,7 +381,8 @@ func (o *Oblig) query(extra []string, negate bool) string {
 		b.WriteString("(assert " + a + ")\n")
 	}
 	for _, f := range facts {
-		b.WriteString("(assert " + f + ") ; lemma\n")
+		lab, _ := factLabels.Load(f)
+		b.WriteString(fmt.Sprintf("(assert %s) ; lemma %v\n", f, lab))
 	}
 	if negate {
 		b.WriteString("(assert (not " + goal + "))\n")
